@@ -84,6 +84,52 @@ def new_scratch(tag="r"):
     return d
 
 
+def fixed_scratch(key: str):
+    """A scratch directory whose absolute path is a function of `key` only.
+
+    Needed where the absolute path itself influences the system under test:
+    out-of-project resources are named (and hashed, hence ordered in sets) by
+    their absolute path.  Falls back to a per-process path if another live
+    process holds the same key."""
+    base = os.path.join(SHM, "ropesim-fixed")
+    os.makedirs(base, exist_ok=True)
+    d = os.path.join(base, key)
+    owner = os.path.join(base, key + ".pid")
+    for _ in range(2):
+        try:
+            os.mkdir(d)
+            with open(owner, "w") as f:
+                f.write(str(os.getpid()))
+            atexit.register(_cleanup_fixed, d, owner, os.getpid())
+            return d
+        except FileExistsError:
+            try:
+                pid = int(open(owner).read().strip() or "0")
+            except (OSError, ValueError):
+                pid = 0
+            if pid and pid != os.getpid() and os.path.exists("/proc/%d" % pid):
+                return new_scratch("fx-")  # held by a live process: stay correct, lose repeatability
+            shutil.rmtree(d, ignore_errors=True)
+    return new_scratch("fx-")
+
+
+def _cleanup_fixed(d, owner, pid):
+    if os.getpid() == pid:
+        shutil.rmtree(d, ignore_errors=True)
+        try:
+            os.unlink(owner)
+        except OSError:
+            pass
+
+
+def drop_fixed(path):
+    shutil.rmtree(path, ignore_errors=True)
+    try:
+        os.unlink(path + ".pid")
+    except OSError:
+        pass
+
+
 def drop_scratch(path):
     shutil.rmtree(path, ignore_errors=True)
 
@@ -191,10 +237,26 @@ def snapshot(root, meta=False):
     return out
 
 
+def scrub(s: str) -> str:
+    """Remove the only run-specific token that can leak into observations: the
+    per-process scratch directory name (it appears inside the tree when rope
+    re-roots an absolute out-of-project path under the project)."""
+    return _SCRUB2.sub(r"\1N", _SCRUB1.sub("ropesim-PID", s))
+
+
+_SCRUB1 = __import__("re").compile(r"ropesim-(?:\d+|fixed/[0-9a-f]+)")
+_SCRUB2 = __import__("re").compile(r"(ropesim-PID/[A-Za-z0-9]+-)\d+")
+
+
+def _unused():
+    return None
+
+
 def tree_hash(snap) -> str:
     h = hashlib.sha256()
-    for k in sorted(snap):
+    for k in sorted(snap, key=scrub):
         v = snap[k]
+        k = scrub(k)
         h.update(k.encode("utf-8", "surrogateescape"))
         h.update(b"\0")
         if isinstance(v, tuple):
@@ -276,7 +338,7 @@ class EventLog:
         self.n = 0
 
     def add(self, **ev):
-        s = json.dumps(ev, sort_keys=True, ensure_ascii=True, default=_json_default)
+        s = scrub(json.dumps(ev, sort_keys=True, ensure_ascii=True, default=_json_default))
         self.h.update(s.encode())
         self.h.update(b"\n")
         self.n += 1
